@@ -110,6 +110,29 @@ func configLoads(b []byte) bool {
 	return true
 }
 
+// cfgMapOut: sections sorted by name, keys sorted, in the model driver's format
+func cfgMapOut(m map[string]map[string]string) string {
+	var names []string
+	for n := range m {
+		names = append(names, n)
+	}
+	sort.Strings(names)
+	var xs []string
+	for _, n := range names {
+		var ks []string
+		for k := range m[n] {
+			ks = append(ks, k)
+		}
+		sort.Strings(ks)
+		var kv []string
+		for _, k := range ks {
+			kv = append(kv, hx([]byte(k))+":"+hx([]byte(m[n][k])))
+		}
+		xs = append(xs, hx([]byte(n))+"="+strings.Join(kv, "+"))
+	}
+	return listOut(xs)
+}
+
 func deriveCmdLine(t *Trans) *Derived {
 	if len(t.Args) == 0 || !t.Pre.Inited || !t.Pre.IndexOK || len(t.Pre.Files) > 40 || !ignoreDomainOK(t.Pre) {
 		return nil
@@ -230,6 +253,36 @@ func deriveCmdLine(t *Trans) *Derived {
 			impl = "ok " + id
 		}
 		line := fmt.Sprintf("cmd.commit %s %s %s %s %s %s %s %d %s", entriesOut(pre.Index), snapS, brS, anyB, cl, cg, unix, t.TZ, hx([]byte(msg)))
+		return &Derived{Line: line, Impl: impl}
+	case "config":
+		// goit config [--global] <section>.<key> <value>: the rewritten file, as it loads again
+		global := false
+		var rest []string
+		for _, a := range t.Args[1:] {
+			if a == "--global" {
+				global = true
+			} else if strings.HasPrefix(a, "-") && len(rest) == 0 {
+				return nil
+			} else {
+				rest = append(rest, a)
+			}
+		}
+		if len(rest) != 2 {
+			return nil
+		}
+		file, has, after := pre.CfgLocal, pre.HasCfgLocal, post.CfgLocal
+		if global {
+			file, has, after = pre.CfgGlobal, pre.HasCfgGlob, post.CfgGlobal
+		}
+		fS := "none"
+		if has {
+			fS = hx(file)
+		}
+		line := fmt.Sprintf("cmd.config %s %s %s", fS, hx([]byte(rest[0])), hx([]byte(rest[1])))
+		impl := "err"
+		if t.Res.Class == "ok" {
+			impl = "ok " + cfgMapOut(parseConfigFile(after))
+		}
 		return &Derived{Line: line, Impl: impl}
 	case "reflog":
 		if len(t.Args) != 1 {
